@@ -1,11 +1,11 @@
 #!/bin/bash
-# batch 2: copies sub-agent deliverables /tmp/sb/<Cnn>/out/{a,b} into /verif/seeded/<Cnn>-{c,d}
+# batches 2, 3: copies sub-agent deliverables $BATCH/<Cnn>/out/{a,b} into /verif/seeded/<Cnn>-{c,d} (BATCH=/tmp/sb, default) or -{e,f} (BATCH=/tmp/sc)
 # (patches are against /repo HEAD already); usage: collect_seeds2.sh C18 [C01 ...]
 cd /verif
 for id in "$@"; do
   for v in a b; do
-    d=/tmp/sb/$id/out/$v; [ -f $d/patch.diff ] || { echo "$id-$v: no patch"; continue; }
-    nv=$( [ $v = a ] && echo c || echo d ); t=seeded/$id-$nv
+    d=${BATCH:-/tmp/sb}/$id/out/$v; [ -f $d/patch.diff ] || { echo "$id-$v: no patch"; continue; }
+    if [ "${BATCH:-/tmp/sb}" = /tmp/sc ]; then nv=$( [ $v = a ] && echo e || echo f ); else nv=$( [ $v = a ] && echo c || echo d ); fi; t=seeded/$id-$nv
     [ -d $t ] && { echo "$t exists"; continue; }
     mkdir -p $t; cp $d/patch.diff $t/patch.diff
     [ -f $d/meta.json ] && cp $d/meta.json $t/meta.agent.json
